@@ -46,7 +46,10 @@ _Set_update(Bucket *self, PyObject *seq)
         v = PyIter_Next(iter);
         if (v == NULL) {
             if (PyErr_Occurred())
+            {
+                ind = -1;  /* the iterator failed: report its exception */
                 goto err;
+            }
             else
                 break;
         }
